@@ -59,6 +59,10 @@ Fixpoint run_evs (prio : list vec -> list Q) (rf max_t : Q) (bs : list bracket) 
       let '(b', d') := moasha_on_trial_result prio rf max_t (nth bi bs []) t it m in
       decision_eqb d d' && run_evs prio rf max_t (upd bs bi b') r
   end.
+(* NonDominatedPriority: implementation's sorted index list, n, implementation's priorities *)
+Definition prio_case := (list nat * nat * list Q)%type.
+Definition chk_prio (c : prio_case) : bool :=
+  let '(sorted, n, impl) := c in list_eqb Qeqb (priority_of_sorted sorted n) impl.
 Definition seq_case := (Q * Q * list bracket * prio_tbl * list ev)%type.
 Definition chk_seq (c : seq_case) : bool :=
   let '(rf, max_t, bs, tbl, evs) := c in run_evs (prio_of tbl) rf max_t bs evs.
@@ -202,9 +206,17 @@ class RecordingPriority:
     def __init__(self, inner):
         self.inner = inner
         self.calls = []
+        self.sorts = []
 
     def __call__(self, objectives):
         out = self.inner(objectives)
+        if hasattr(self.inner, "max_num_samples") and getattr(self.inner, "dim", None) is not None:
+            # deterministic (dim given): the same sort the priority was computed from
+            from syne_tune.optimizer.schedulers.multiobjective.non_dominated_priority import nondominated_sort
+            srt = nondominated_sort(X=np.array(objectives, dtype=float), dim=self.inner.dim,
+                                    max_items=self.inner.max_num_samples)
+            self.sorts.append(([int(i) for i in srt], int(np.asarray(objectives).shape[0]),
+                               [float(x) for x in np.asarray(out).tolist()]))
         self.calls.append((np.array(objectives, dtype=float).tolist(), [float(x) for x in np.asarray(out).tolist()]))
         return out
 
@@ -260,6 +272,7 @@ def moasha_sequences(ctx, replay):
     else:
         specs = [gen_moasha_case(rng) for _ in range(ctx.n(150, 3000))]
     cases, meta = [], []
+    pcases, pmeta = [], []
     for spec in specs:
         nmet = len(spec["metrics"])
         inner = {"nd": lambda: NonDominatedPriority(), "nd1": lambda: NonDominatedPriority(dim=nmet - 1),
@@ -343,9 +356,17 @@ def moasha_sequences(ctx, replay):
         for s in range(spec["brackets"]):
             ms = bracket_milestones(spec["grace"], spec["max_t"], spec["rf"], s)
             brs.append(lst(["{| milestone := %s; recorded := [] |}" % q(float(m)) for m in ms]))
+        for srt, n, pr in rec.sorts[:6]:
+            pcases.append("(%s, %s, %s)" % (lst([natlit(i) for i in srt]), natlit(n), qlist(pr)))
+            pmeta.append(dict(kind="moasha", spec=spec, sorted=srt, n=n, impl_priorities=pr))
         tbl = lst(["(%s, %s)" % (vecs(m), qlist(p)) for m, p in rec.calls])
         cases.append("(%s, %s, %s, %s, %s)" % (q(float(spec["rf"])), q(float(spec["max_t"])), lst(brs), tbl, lst(ev_terms)))
         meta.append(dict(kind="moasha", spec=spec, impl_decisions=decisions))
+    if pcases:
+        ctx.h("priority_cases", "n", len(pcases))
+        for i in ctx.coq_bad_cases("prio", IMPORTS, PRELUDE, "chk_prio", pcases):
+            ctx.violation("correspondence", "model priority_of_sorted differs from NonDominatedPriority", case=pmeta[i],
+                          failing_input=False, broken="correspondence chk_prio (model/Pareto.v priority_of_sorted)")
     if cases:
         ctx.sample(dict(kind="moasha", spec=meta[0]["spec"], impl_decisions=meta[0]["impl_decisions"]))
         for i in ctx.coq_bad_cases("moasha", IMPORTS, PRELUDE, "chk_seq", cases, shard=60):
